@@ -431,7 +431,9 @@ class DiscreteQuadraticModel:
         length = np.frombuffer(file_like.read(4), '<u4')[0]
         start = file_like.tell()
 
-        data = np.load(file_like)
+        # np.load looks for the end of the archive at the end of the *file*:
+        # hand it this section only (a VARS section may follow)
+        data = np.load(io.BytesIO(file_like.read(int(length))))
 
         obj = cls.from_numpy_vectors(data['case_starts'],
                                      data['linear_biases'],
